@@ -362,24 +362,27 @@ class VmControlData(TlbScheme):
     @classmethod
     def serialize(cls, value: "VmControlData") -> Cell:
         builder = Builder()
+        # absent parts are None (or missing attributes); 0 is a value: nargs 0 and cp 0 used to be written as absent
+        nargs, stack, cp = getattr(value, 'nargs', None), getattr(value, 'stack', None), getattr(value, 'cp', None)
 
-        if value.nargs:
+        if nargs is not None:
             builder.store_bit_int(1)
-            builder.store_uint(value.nargs, 13)
+            builder.store_uint(nargs, 13)
         else:
             builder.store_bit_int(0)
 
-        if value.stack:
+        if stack is not None:
             builder.store_bit_int(1)
-            builder.store_cell(value.stack)
+            # the parser returns the saved stack as a list of values; a ready VmStack cell is still accepted
+            builder.store_cell(stack if isinstance(stack, Cell) else VmStack.serialize(stack))
         else:
             builder.store_bit_int(0)
 
-        builder.store_cell(VmSaveList.serialize(value.save))
+        builder.store_cell(VmSaveList.serialize(getattr(value, 'save', None)))
 
-        if value.cp:
+        if cp is not None:
             builder.store_bit_int(1)
-            builder.store_int(value.cp, 16)
+            builder.store_int(cp, 16)
         else:
             builder.store_bit_int(0)
 
@@ -387,7 +390,7 @@ class VmControlData(TlbScheme):
 
     @classmethod
     def deserialize(cls, cell_slice: Slice) -> "VmControlData":
-        kwargs = {}
+        kwargs = {'nargs': None, 'stack': None, 'cp': None}
         is_nargs = cell_slice.load_bit()
         if is_nargs:
             kwargs['nargs'] = cell_slice.load_uint(13)
@@ -406,9 +409,12 @@ class VmSaveList(TlbScheme):
     _ cregs:(HashmapE 4 VmStackValue) = VmSaveList;
     """
     @classmethod
-    def serialize(cls, value: "HashMap") -> Cell:
+    def serialize(cls, value) -> Cell:
+        # value: None, a dictionary cell, or {register index: stack value} as returned by deserialize
+        if isinstance(value, dict):
+            value = HashMap(4, map_=value, value_serializer=lambda src, dest: dest.store_cell(VmStackValue.serialize(src))).serialize()
         return Builder().store_dict(value).end_cell()
 
     @classmethod
-    def deserialize(cls, cell_slice: Slice) -> "HashMap":
-        return cell_slice.load_dict(4)
+    def deserialize(cls, cell_slice: Slice) -> dict:
+        return cell_slice.load_dict(4, value_deserializer=VmStackValue.deserialize)
